@@ -168,6 +168,10 @@ def subRefs (refs : List (Str × Str)) : Nat → Str → Option Str
     | some out => some (c :: out)
     | none => none
 
+/-- `Survey.insert_xpaths(text, context)` (survey.py 1205-1220): every `${name}` becomes its xpath inside the
+    string — the channel of bind / control attribute values (`jr:noAppErrorString`, `bind::x`, …) -/
+def insertXpaths (refs : List (Str × Str)) (v : Str) : Option Str := subRefs refs (v.length + 1) v
+
 /-- `node("output", value=v).toxml()` -/
 def outputXml (v : Str) : Str := "<output value=\"".toList ++ escAttr v ++ "\"/>".toList
 
@@ -210,6 +214,25 @@ def insertOutputValues (refs : List (Str × Str)) (text : Str) : Outcome (Str ×
   | .reparseError => .reparseError
   | .unsupported w => .unsupported w
 
+/-! ## The character check of `validate_xml_document` (utils.py, run at the end of `Survey.xml()`) -/
+
+/-- `_validate_xml_chars`: `INVALID_XML_CHAR_REGEX = [^\t\n\r\u0020-\ud7ff\ue000-\ufffd\U00010000-\U0010ffff]`
+    finds nothing -/
+def validChars (s : Str) : Bool := s.all isXmlChar
+
+mutual
+/-- every text node and attribute value of the document passes `_validate_xml_chars` -/
+def charsValid : Node → Bool
+  | .text _ s => validChars s
+  | .elem _ a ks => a.all (fun kv => validChars kv.2) && charsValidKids ks
+def charsValidKids : List Node → Bool
+  | [] => true
+  | k :: ks => charsValid k && charsValidKids ks
+end
+
+/-- the document is handed out only when the check passes; otherwise PyXFormError -/
+def checkedDoc (n : Node) : Outcome Node := if charsValid n then .ok n else .pyxformError
+
 /-- `cloneNode(deep=False)` of a parsed child: elements lose their children, text becomes a stock
     `minidom.Text` -/
 def shallow : Node → Node
@@ -230,6 +253,8 @@ def nodeParsed (tag inner : Str) : Option Node :=
 def mixedChannel (refs : List (Str × Str)) (tag text : Str) : Outcome Node :=
   match insertOutputValues refs text with
   | .ok (x, true) =>
+    -- utils.node (fix 9bea19c): `_validate_xml_chars(unicode_args[0], …)` before `parseString`
+    if !validChars x then .pyxformError else
     match nodeParsed tag x with
     | some n => .ok n
     | none => .reparseError
@@ -237,24 +262,5 @@ def mixedChannel (refs : List (Str × Str)) (tag text : Str) : Outcome Node :=
   | .pyxformError => .pyxformError
   | .reparseError => .reparseError
   | .unsupported w => .unsupported w
-
-/-! ## The character check of `validate_xml_document` (utils.py, run at the end of `Survey.xml()`) -/
-
-/-- `_validate_xml_chars`: `INVALID_XML_CHAR_REGEX = [^\t\n\r\u0020-\ud7ff\ue000-\ufffd\U00010000-\U0010ffff]`
-    finds nothing -/
-def validChars (s : Str) : Bool := s.all isXmlChar
-
-mutual
-/-- every text node and attribute value of the document passes `_validate_xml_chars` -/
-def charsValid : Node → Bool
-  | .text _ s => validChars s
-  | .elem _ a ks => a.all (fun kv => validChars kv.2) && charsValidKids ks
-def charsValidKids : List Node → Bool
-  | [] => true
-  | k :: ks => charsValid k && charsValidKids ks
-end
-
-/-- the document is handed out only when the check passes; otherwise PyXFormError -/
-def checkedDoc (n : Node) : Outcome Node := if charsValid n then .ok n else .pyxformError
 
 end Pyxv.Chan
